@@ -31,17 +31,17 @@ WITNESS = {
     # children sl=1, sl=2, a, b (hash table exists); change sl=1 -> 5: stale record under the old hash
     "F19": ("S1", ["new,1,-,saa:c,-", "new,2,1,saa:sll,31", "new,3,1,saa:sll,32", "new,4,1,saa:a,78", "new,5,1,saa:b,78", "change,2,35"], 16),
     # lyd_insert_sibling(sibling, node) with node = first sibling of that list: node ends in a one-element ring
-    "F50": ("S1", ["new,1,-,saa:c,-", "new,2,1,saa:a,78", "new,3,1,saa:b,78", "ins_sibling,2,3"], None),
+    "F140": ("S1", ["new,1,-,saa:c,-", "new,2,1,saa:a,78", "new,3,1,saa:b,78", "ins_sibling,2,3"], None),
     # opaque node linked among data nodes by lyd_insert_before: linear searches stop at it
-    "F51": ("S1", ["new,1,-,saa:c,-", "new,2,1,saa:ull,31", "new,3,1,saa:ull,32", "newopaq,4,-,oq,-", "ins_before,4,2"], None),
+    "F141": ("S1", ["new,1,-,saa:c,-", "new,2,1,saa:ull,31", "new,3,1,saa:ull,32", "newopaq,4,-,oq,-", "ins_before,4,2"], None),
     # a second key leaf re-hashes the list instance and indexes it again without removing the old record
-    "F52": ("S1", ["new,1,-,saa:c,-", "new,2,1,saa:sl,31", "new,3,1,saa:a,78", "new,4,1,saa:b,78", "new,5,1,saa:e,78", "new,6,2,saa:k,37"], None),
+    "F142": ("S1", ["new,1,-,saa:c,-", "new,2,1,saa:sl,31", "new,3,1,saa:a,78", "new,4,1,saa:b,78", "new,5,1,saa:e,78", "new,6,2,saa:k,37"], None),
     # implicit top-level node of the second module inserted relative to the module's first node
-    "F53": ("S1", ["new,7,-,saa:c,-", "new,11,-,sbb:tb,42", "ins_sibling,11,7", "validate,7"], None),
+    "F45": ("S1", ["new,7,-,saa:c,-", "new,11,-,sbb:tb,42", "ins_sibling,11,7", "validate,7"], None),
     # lyd_move_nodes: the first source node is not system-ordered, a later one is and has a leader in the destination
-    "F54": ("S3", ["new,1,-,scc:tl,30", "new,2,-,scc:c,-", "ins_sibling,1,2", "new,3,-,scc:c,-", "new,4,-,scc:tl,35", "ins_sibling,4,3", "ins_sibling,3,1"], None),
+    "F144": ("S3", ["new,1,-,scc:tl,30", "new,2,-,scc:c,-", "ins_sibling,1,2", "new,3,-,scc:c,-", "new,4,-,scc:tl,35", "ins_sibling,4,3", "ins_sibling,3,1"], None),
     # lyd_merge_tree with two opaque nodes in the source: NULL dereference in lyht_dup_inst_ht_equal_cb
-    "F55": ("S3", ["new,8,-,scc:c,-", "new,4,-,scc:c,-", "newopaq,1,8,zz,-", "new,6,4,scc:dv,3130", "newopaq,11,8,a,76", "merge_opaq,8,4,4"], None),
+    "F145": ("S3", ["new,8,-,scc:c,-", "new,4,-,scc:c,-", "newopaq,1,8,zz,-", "new,6,4,scc:dv,3130", "newopaq,11,8,a,76", "merge_opaq,8,4,4"], None),
 }
 
 
@@ -52,7 +52,7 @@ def classify(component, what, case):
     if component != "sib":
         return None
     a = case.get("attrib")
-    return a if a in ("F19", "F50", "F51", "F52", "F53", "F54", "F55") else None
+    return a if a in ("F19", "F140", "F141", "F142", "F45", "F144", "F145") else None
 
 
 # ------------------------------------------------------------------------------------------------ helpers
